@@ -370,6 +370,23 @@ def _py_kernel(name, args):
         except Exception:
             return ["raise"]
         return [" ".join(_num(x) for x in w), " ".join(ST_NAME[x] for x in a)]
+    if name == "ops":
+        # the operation sequence exactly as the schedule class constructors request it
+        w = args[0].split()
+        n, a = int(w[1]), int(w[2])
+        uf, ub, wd, rd = [_cost(x) for x in w[-4:]]
+        try:
+            if w[0] == "RV":
+                seq = rv.revolve(n - 1, a, wd, rd, uf, ub)
+            elif w[0] == "DR":
+                seq = dr.disk_revolve(n - 1, a, wd, rd, uf, ub)
+            elif w[0] == "PD":
+                seq = pdr.periodic_disk_revolve(n - 1, a, wd, rd, uf, ub)
+            else:
+                seq = hr.hrevolve(n - 1, (a, int(w[3])), [0, wd], [0, rd], uf, ub)
+            return [repr(list(seq))]
+        except Exception:
+            return ["raise"]
     if name == "action_api":
         # args: list of canonical action texts; returns per action: repr | eval(repr)==a | list | len | contains probes
         out = []
